@@ -41,7 +41,7 @@ def main(tier):
     r2 = V.tlc(os.path.join(SP, 'Tglf.tla'), os.path.join(SP, 'Tglf.cfg'), env={'TGLFRECS': gf}, timeout=2400, cont=True)
     ev.add_tlc('Tglf: %d random graphs written and read back' % n, r2)
     recs = json.load(open(gf))['recs']
-    nontriv = sum(int(m.group(2)) for m in re.finditer(r'<<"STAT", "tglf", (\d+), (\d+)>>', r2.out))
+    nontriv = sum(v[0] for v in V.stat(r2.out, 'tglf'))
     for inv, st in V.violating_states(r2):
         for (i, t) in st.get('bad', []):
             x = recs[i - 1]
